@@ -97,14 +97,17 @@ Definition hash_result (r : result (list (pathel fpt)) perr) : int :=
   | Err BadPoint => 3
   | Panic _ => 4
   end.
-Definition char_of (h : int) : ascii := ascii_of_N (48 + Z.to_N (Uint63.to_Z (h land 63))).
-
 (** ---------- contours ---------- *)
 (** digit coding of Run/C11.v: type = d / 2 in [move,line,offcurve,curve,qcurve], smooth = d mod 2 *)
-Definition sym (d : N) : pt :=
-  ((match d / 2 with 0 => Move | 1 => Line | 2 => Off | 3 => Curve | _ => QCurve end)%N, N.odd d).
+Definition sym (d : int) : pt :=
+  (let t := d >> 1 in
+   if t =? 0 then Move else if t =? 1 then Line else if t =? 2 then Off else if t =? 3 then Curve else QCurve,
+   (d land 1) =? 1).
 Definition of_digits (s : string) : list pt :=
-  map (fun a => sym (N_of_ascii a - 48)) (list_ascii_of_string s).
+  map (fun a => sym (Uint63.of_Z (Z.of_N (N_of_ascii a - 48)))) (list_ascii_of_string s).
+(** type digits 0..4 (smooth = false) *)
+Definition of_digits5 (s : string) : list pt :=
+  map (fun a => sym (2 * Uint63.of_Z (Z.of_N (N_of_ascii a - 48)))) (list_ascii_of_string s).
 
 (** coordinates of the exhaustive part: point i is (2^(i+1), 1000 + 3 (i+1)^2): all points, all
     midpoints of two points and all coordinates pairwise distinct, all arithmetic exact *)
@@ -114,7 +117,63 @@ Fixpoint with_coords_exh (i : int) (l : list pt) : list (point fpt) :=
   | p :: r => (p, (PrimFloat.of_uint63 (1 << (i + 1)),
                    PrimFloat.of_uint63 (1000 + 3 * (i + 1) * (i + 1)))) :: with_coords_exh (i + 1) r
   end.
-(** coordinates of random contour number [j], derived from the run's key *)
+(** sequence number [idx] of length [n]: base-5 digits of [idx], most significant first *)
+Fixpoint seq_of_index (n : nat) (idx : int) (acc : list pt) : list pt :=
+  match n with
+  | O => acc
+  | S k => seq_of_index k (idx / 5) (sym (2 * (idx mod 5)) :: acc)
+  end.
+Definition exh_contour (n : nat) (idx : int) : list (point fpt) :=
+  with_coords_exh 0 (seq_of_index n idx []).
+
+(** random contour number [j]: type sequence and coordinates derived from the run's key *)
+Fixpoint walk (kg j : int) (fuel : nat) (is_open : bool) (i offs : int) : list int :=
+  match fuel with
+  | O => []
+  | S k =>
+      let d := draw kg j (10 + i) in
+      let r := d mod 100 in
+      let t := if (i =? 0) && is_open then 0
+               else if offs =? 0 then (if r <? 25 then 1 else if r <? 60 then 2 else if r <? 80 then 3 else 4)
+               else if offs =? 1 then (if r <? 40 then 2 else if r <? 75 then 3 else 4)
+               else if r <? 15 then 2
+               else if r <? 55 then (if offs =? 2 then 3 else 4)
+               else 4 in
+      let sm := if (t =? 2) then 0 else if ((d >> 20) mod 3 =? 0) then 1 else 0 in
+      (2 * t + sm) :: walk kg j k is_open (i + 1) (if t =? 2 then offs + 1 else 0)
+  end.
+Fixpoint uniform (kg j : int) (fuel : nat) (i : int) : list int :=
+  match fuel with
+  | O => []
+  | S k => (draw kg j (10 + i) mod 10) :: uniform kg j k (i + 1)
+  end.
+Fixpoint set_nth (q : int) (v : int) (i : int) (l : list int) : list int :=
+  match l with
+  | [] => []
+  | x :: r => (if i =? q then v else x) :: set_nth q v (i + 1) r
+  end.
+Fixpoint drop_offs (l : list int) : list int :=
+  match l with
+  | x :: r => if (x >> 1) =? 2 then drop_offs r else l
+  | [] => []
+  end.
+Definition gen_digits (key j : int) : list int :=
+  let kg := mix (key + 3) in
+  let d0 := draw kg j 0 in
+  let len := if j mod 40 =? 0 then 60 + d0 mod 141 else 1 + d0 mod 24 in
+  let fuel := Z.to_nat (Uint63.to_Z len) in
+  let ds :=
+    if draw kg j 1 mod 12 =? 0 then uniform kg j fuel 0
+    else
+      let w := walk kg j fuel (draw kg j 2 mod 3 =? 0) 0 0 in
+      let e := draw kg j 3 mod 24 in
+      if e <? 2 then map (fun _ => 4) w
+      else if e <? 5 then set_nth (draw kg j 4 mod len) (draw kg j 5 mod 10) 0 w
+      else w in
+  match ds with
+  | first :: rest => if (first >> 1) =? 0 then first :: rev (drop_offs (rev rest)) else ds
+  | [] => []
+  end.
 Fixpoint with_coords_rand (kc j mode i : int) (l : list pt) : list (point fpt) :=
   match l with
   | [] => []
@@ -123,43 +182,17 @@ Fixpoint with_coords_rand (kc j mode i : int) (l : list pt) : list (point fpt) :
            gen_float (force_cat mode (draw kc j (4 * i + 2))) (draw kc j (4 * i + 3))))
         :: with_coords_rand kc j mode (i + 1) r
   end.
-Definition rand_contour (key j : int) (l : list pt) : list (point fpt) :=
+Definition rand_contour_of (key j : int) (l : list pt) : list (point fpt) :=
   let kc := mix (key + 2) in
   with_coords_rand kc j (draw kc j 1048576 mod 3) 0 l.
+Definition rand_contour (key j : int) : list (point fpt) :=
+  rand_contour_of key j (map sym (gen_digits key j)).
 
-Definition model_char (c : list (point fpt)) : ascii := char_of (hash_result (fto_path c)).
-(** '-' when the sequence is illegal (the property says nothing), else the outline's fingerprint *)
-Definition spec_char (c : list (point fpt)) : ascii :=
-  if legalb (types fpt c) then char_of (hash_result (Ok (fspec_path c))) else "-"%char.
-
-(** all type sequences of length n (smooth = false), first symbol most significant *)
-Definition syms5 : list pt := [(Move, false); (Line, false); (Off, false); (Curve, false); (QCurve, false)].
-Fixpoint seqs5 (n : nat) : list (list pt) :=
-  match n with
-  | O => [[]]
-  | S k => flat_map (fun s => map (fun t => s :: t) (seqs5 k)) syms5
-  end.
-Definition of_digits5 (s : string) : list pt :=
-  map (fun a => nth (N.to_nat (N_of_ascii a - 48)) syms5 (QCurve, false)) (list_ascii_of_string s).
-
-(** exhaustive shard: all sequences [prefix ++ t], t of length n; expected = harness characters *)
-Definition diff_model_exh (prefix : string) (n : nat) (expected : list string) :=
-  diff_aux 0 (map (fun t => model_char (with_coords_exh 0 (of_digits5 prefix ++ t))) (seqs5 n))
-           (list_ascii_of_string (cat expected)) [].
-Definition diff_spec_exh (prefix : string) (n : nat) (expected : list string) :=
-  diff_aux 0 (map (fun t => spec_char (with_coords_exh 0 (of_digits5 prefix ++ t))) (seqs5 n))
-           (list_ascii_of_string (cat expected)) [].
-
-(** random contours: digit strings (C11 coding), numbered from [base] *)
-Fixpoint rand_chars (f : list (point fpt) -> ascii) (key j : int) (cs : list string) : list ascii :=
-  match cs with
-  | [] => []
-  | s :: r => f (rand_contour key j (of_digits s)) :: rand_chars f key (j + 1) r
-  end.
-Definition diff_model_rand (key base : int) (cs : list string) (expected : list string) :=
-  diff_aux 0 (rand_chars model_char key base cs) (list_ascii_of_string (cat expected)) [].
-Definition diff_spec_rand (key base : int) (cs : list string) (expected : list string) :=
-  diff_aux 0 (rand_chars spec_char key base cs) (list_ascii_of_string (cat expected)) [].
+(** per-case 63-bit fingerprints *)
+Definition model_h (c : list (point fpt)) : int := hash_result (fto_path c).
+(** 1 when the sequence is illegal (the property says nothing), else the outline's fingerprint *)
+Definition spec_h (c : list (point fpt)) : int :=
+  if legalb (types fpt c) then hash_result (Ok (fspec_path c)) else 1.
 
 (** ---------- transforms ---------- *)
 Definition tr_case (key i : int) : affine float * fpt :=
@@ -167,19 +200,37 @@ Definition tr_case (key i : int) : affine float * fpt :=
   let mode := draw kt i 100 land 3 in
   let g := fun j => gen_float (force_cat mode (draw kt i (2 * j))) (draw kt i (2 * j + 1)) in
   (mkaffine (g 0) (g 1) (g 2) (g 3) (g 4) (g 5), (g 6, g 7)).
-Definition tr_char (key i : int) : ascii :=
+Definition tr_h (key i : int) : int :=
+  let '(t, p) := tr_case key i in hash_pt 29 (ftransform t p).
+(** the kurbo side of the model: Affine * Point of the converted transform, then the six fields
+    of the transform converted to kurbo and back *)
+Definition trk_h (key i : int) : int :=
   let '(t, p) := tr_case key i in
-  char_of (hash_pt 29 (ftransform t p)).
-(** the kurbo side of the model, and the round trip *)
-Definition tr_kurbo_char (key i : int) : ascii :=
-  let '(t, p) := tr_case key i in
-  char_of (hash_pt 29 (fkurbo_apply (to_kurbo float (from_kurbo float (to_kurbo float t))) p)).
-Definition tr_chars (f : int -> int -> ascii) (key i : int) (n : N) : list ascii :=
-  rev (snd (N.iter n (fun st => (fst st + 1, f key (fst st) :: snd st)) (i, []))).
-Definition diff_transform (key base : int) (n : N) (expected : list string) :=
-  diff_aux 0 (tr_chars tr_char key base n) (list_ascii_of_string (cat expected)) [].
-Definition diff_transform_kurbo (key base : int) (n : N) (expected : list string) :=
-  diff_aux 0 (tr_chars tr_kurbo_char key base n) (list_ascii_of_string (cat expected)) [].
+  let b := from_kurbo float (to_kurbo float t) in
+  fold_left hash_float [x_scale b; xy_scale b; yx_scale b; y_scale b; x_offset b; y_offset b]
+            (hash_pt 29 (fkurbo_apply (to_kurbo float t) p)).
+
+(** ---------- what a shard prints ---------- *)
+(** fingerprints of the cases base .. base+count-1 folded block-wise ([bsize] per block, the last
+    block may be shorter); the harness prints the same numbers *)
+Definition block_sum (f : int -> int) (base : int) (n : N) : int :=
+  snd (N.iter n (fun st => (fst st + 1, hstep (snd st) (f (fst st)))) (base, 0)).
+Fixpoint block_sums_aux (f : int -> int) (fuel : nat) (base : int) (count bsize : N) : list int :=
+  match fuel with
+  | O => []
+  | S k => if (count =? 0)%N then []
+           else let n := N.min count bsize in
+                block_sum f base n :: block_sums_aux f k (base + Uint63.of_Z (Z.of_N n)) (count - n) bsize
+  end.
+Definition block_sums (f : int -> int) (base : int) (count bsize : N) : list int :=
+  block_sums_aux f (S (N.to_nat (count / bsize))) base count bsize.
+Definition case_hashes (f : int -> int) (base : int) (count : N) : list int :=
+  rev (snd (N.iter count (fun st => (fst st + 1, f (fst st) :: snd st)) (base, []))).
+
+Definition exh_model (n : nat) (idx : int) : int := model_h (exh_contour n idx).
+Definition exh_spec (n : nat) (idx : int) : int := spec_h (exh_contour n idx).
+Definition rand_model (key j : int) : int := model_h (rand_contour key j).
+Definition rand_spec (key j : int) : int := spec_h (rand_contour key j).
 
 (** ---------- readable dumps for replay files (mismatching cases only) ---------- *)
 Definition bits_of (f : float) : Z :=
@@ -217,3 +268,4 @@ Definition dump_eqb (a b : Z * list (Z * list Z)) : bool :=
 Definition outline_ok (c : list (point fpt)) (impl : Z * list (Z * list Z)) : bool :=
   legalb (types fpt c) &&
   existsb (fun path => dump_eqb (dump_result (Ok path)) impl) (valid_outlines fpt fmid c).
+Definition digits_of (key j : int) : list Z := map Uint63.to_Z (gen_digits key j).
